@@ -407,7 +407,7 @@ func TestVerifC05(t *testing.T) {
 	rep.Set("rule", "case i = PRNG(seed,'C05',i): KV map over all writable value types (+alignment in {absent,1,8,16,32,64,128,4096}), 0-40 tensors over every kind of typeSize's table with byte sizes mostly not multiples of the alignment, unique PRNG bytes per tensor; written by the real WriteGGUF, decoded by the real Decode and by an independent header reader. Non-trivial & distinct = distinct (alignment, tensor-count bucket, pattern of which of the first 8 tensors (in written order) have unaligned size, set of KV value types, maxArraySize) among cases with >=3 tensors of which at least one non-last is unaligned")
 	rep.Set("assumptions", []string{"tensor data supplied through WriterTo has exactly Tensor.Size() bytes", "tensor names unique within a file", "block-quantised kinds get a row length that is a multiple of their block size (Size() is exact)"})
 	dir := t.TempDir()
-	n := cfg.N(4000, 400000)
+	n := cfg.N(4000, 3000000)
 	replayIdx := -1
 	if cfg.Replay != "" {
 		var rc struct {
